@@ -22,6 +22,7 @@ import (
 //	drop <from> <to> [max=<k>]
 //	fetch <i> on|off                whether i can fetch blocks from its peers' stores
 //	queues
+//	mark <words...>                 phase marker for the oracles
 //	qcof <qcname> <block>           names the certificate a block carries
 //	<anything else>                 world op (cert / wire families): crafting
 type clusterFam struct {
@@ -185,6 +186,8 @@ func (c *clusterFam) op(a []string) string {
 			return "idle"
 		}
 		return strings.Join(outs, " || ")
+	case "mark":
+		return "ok" // phase marker for the oracles (no effect)
 	case "qcof":
 		if len(a) != 3 || c.world.env == nil || a[2] == "G" {
 			return "bad-op"
